@@ -469,9 +469,19 @@ class Unit:
         if self.dimensions is logarithmic and p != 1:
             raise InvalidUnitOperation(f"Tried to raise '{self}' to power '{p}'")
 
+        base_offset = 0.0
+        if self.base_offset:
+            if p != 1:
+                raise InvalidUnitOperation(
+                    "Quantities with dimensions of angle or units of "
+                    "Fahrenheit or Celsius cannot be raised to a power."
+                )
+            base_offset = self.base_offset
+
         return Unit(
             self.expr**p,
             base_value=(self.base_value**p),
+            base_offset=base_offset,
             dimensions=(self.dimensions**p),
             registry=self.registry,
         )
